@@ -85,13 +85,13 @@ func TestC03(t *testing.T) {
 
 func TestC04(t *testing.T) {
 	runPkt(t, "C04", "exploration", 40, 60, 70, func(pr *Profile, o *SimOpts) {
-		pr.Timeout, pr.TimeoutEarly, pr.TimeoutReceived, pr.RecvAfterTimeout, pr.SoonPct = 12, 10, 8, 8, 60
+		pr.Timeout, pr.TimeoutEarly, pr.TimeoutReceived, pr.RecvAfterTimeout, pr.SoonPct, pr.Boundary = 12, 10, 8, 8, 60, 8
 	}, map[string]int64{"cb_timeout": 60, "timeout_truth_elapsed": 50, "rejected_timeout": 60})
 }
 
 func TestC05(t *testing.T) {
 	runPkt(t, "C05", "exploration", 40, 60, 70, func(pr *Profile, o *SimOpts) {
-		pr.Mutate, pr.Replay, pr.Close = 30, 10, 1
+		pr.Mutate, pr.Replay, pr.Close, pr.Redirect, pr.Boundary, pr.SoonPct = 30, 10, 1, 8, 10, 50
 	}, map[string]int64{"recv_matches_truth": 150, "mutants": 200, "rejected_recv": 100})
 }
 
